@@ -78,3 +78,28 @@ func clauseOwners(fc *FnCtx, c *Clause) string {
 	}
 	return s
 }
+
+// maintainCheck: after every statement of a body under `maintain` clauses (at any nesting depth) each clause is
+// proved from what is known so far and then kept as a fact -- a running invariant of loop-free code. Nothing is
+// forgotten; the clause only hands the solver the intermediate step.
+func (fc *FnCtx) maintainCheck(st *State, at ast.Stmt) {
+	if st == nil || fc.contract == nil || len(fc.contract.Maintain) == 0 || (len(fc.curFn) > 0 && fc.curFn[len(fc.curFn)-1].inlined) {
+		return
+	}
+	switch at.(type) {
+	case *ast.ReturnStmt, *ast.BranchStmt, *ast.DeclStmt, *ast.EmptyStmt:
+		return
+	}
+	fc.maintainN++
+	for k, c := range fc.contract.Maintain {
+		env := &specEnv{fc: fc, st: st, old: fc.entry, at: at.End(), scopeNode: at}
+		t := fc.specBool(st, c.Expr, env)
+		if !fc.clauseActive(c) {
+			continue
+		}
+		fc.curEnv = env
+		fc.assert(st, "maintain", fmt.Sprintf("%s@%d", clauseName("maintain", c, k), fc.maintainN), t, at.Pos(), c.Src)
+		fc.curEnv = nil
+		fc.assume(st, t)
+	}
+}
